@@ -612,13 +612,13 @@ Fixpoint overlay (ps : Z) (f v : list Z) (ss : list slot) : list Z :=
 Definition view (st : exf) : list Z := overlay (psize st) (file st) (file st) (slots st).
 Definition vabs (st : exf) : flat := mkFlat (view st) (maxoff st) (pol st).
 
-(* copy: the size request for the destination, then the bytes of the source range that exist are moved;
-   a forward-overlapping copy may be refused (documented "todo" of iwp_copy_bytes) *)
+(* copy: the size request for the destination, then the bytes of the source range that exist are moved - whatever the
+   direction of an overlap and whether the ranges are served by a window or by the file (8dc0de1: iwp_copy_bytes moves a
+   forward-overlapping range back to front; before, it was refused with IW_ERROR_OVERFLOW after the file had grown) *)
 Definition spec_copy (ps : Z) (ok : os_ok) (a : flat) (off siz noff rc : Z) (a' : flat) : Prop :=
   let '(rc1, a1) := spec_ensure ps ok a (noff + siz) in
   if rc1 =? 0 then
-    (rc = 0 /\ a' = mkFlat (splice (a_bytes a1) noff (pread (a_bytes a1) off siz)) (a_maxoff a1) (a_pol a1))
-    \/ (rc = EXF_E_OVERFLOW /\ off < noff < off + siz /\ a' = a1)
+    rc = 0 /\ a' = mkFlat (splice (a_bytes a1) noff (pread (a_bytes a1) off siz)) (a_maxoff a1) (a_pol a1)
   else rc = rc1 /\ a' = a1.
 
 (* the flat array has no windows; what it says about a call during which the operating system refuses to map a window:
